@@ -332,7 +332,7 @@ def run_polars(rep, rng, n):
 
 def run(tier, replay=None):
     rep = Report(PROP, tier)
-    regenerate(("alias",))
+    regenerate(("alias", "kindprograms"))
     rep.audit = audit(PROP, MODULES)
     rep.audit["modules"] = MODULES
     rng = rng_for(PROP)
